@@ -406,3 +406,14 @@ Example ex_greatest_id :
      = RArr [RArr [RBulk m; RArr [RBulk (B "a"); RBulk (B "b")]]]
   /\ exec empty_db 0 5 [B "xadd"; B "s"; B "18446744073709551616-0"; B "a"; B "b"] RNil = (err_other, empty_db).
 Proof. vm_compute. repeat split. Qed.
+
+(* ---------------------------------------------------------------- all command families (Mem/AllInv.v)
+   Strictly increasing ids are preserved by every command of EVERY family (RENAME moving a
+   stream, DEL, SET overwriting it, expiry ...), hence by any interleaving of them. *)
+Require Mem.AllInv Mem.ZSetsCompose.
+
+Theorem C18_streams_ok_all_commands : forall (prog : list (Z * Z * list bytes * reply)) (d : db),
+  db_wf d -> streams_ok d ->
+  db_wf (ZSetsCompose.run_cmds prog d) /\ streams_ok (ZSetsCompose.run_cmds prog d).
+Proof. exact AllInv.streams_ok_all_commands. Qed.
+Print Assumptions C18_streams_ok_all_commands.
